@@ -34,6 +34,10 @@ var cliFamilies = map[string]cliFamily{
 		wFeedBad: 1, wSendFault: 2, wCbGate: 2, wLateOp: 3, steps: 16, scriptOf4: 0, faultOf16: 2},
 	// channel discipline on the client's side (C10): every kind of action, so that Send, Recv and Close of the
 	// client's channel are exercised against each other (the instrumented channel's monitors judge)
+	// the client as the peer of a pushing server (C09): server requests above all, callback handlers that succeed,
+	// fail with coded and uncoded errors, return values that cannot be encoded, or panic
+	"cli:c09": {name: "c09", wOp: 3, wReply: 4, wJunk: 1, wSrvReq: 12, wCancel: 1, wDeadline: 1, wClose: 1, wFeedErr: 1,
+		wFeedBad: 0, wSendFault: 1, wCbGate: 12, wLateOp: 1, steps: 16, scriptOf4: 0, faultOf16: 1},
 	"cli:c10": {name: "c10", wOp: 8, wReply: 8, wJunk: 2, wSrvReq: 4, wCancel: 4, wDeadline: 3, wClose: 3, wFeedErr: 2,
 		wFeedBad: 1, wSendFault: 2, wCbGate: 3, wLateOp: 3, steps: 16, scriptOf4: 0, faultOf16: 2},
 }
@@ -302,6 +306,8 @@ func (s *cliScen) walkStep() {
 			p := pick(g, cbRunning)
 			if g.chance(1, 4) {
 				r.cbGate(p, cgate{code: pick(g, []int{-32000, 5}), msg: "callback says no"})
+			} else if g.chance(1, 4) {
+				r.cbGate(p, cbFailure(pick(g, []string{"plain", "nan", "chan", "panic"})))
 			} else {
 				r.cbGate(p, cgate{res: pick(g, []string{"true", `{"r":1}`, `"ok"`})})
 			}
